@@ -401,6 +401,16 @@ def _adapt(fns, cand, want, types):
                 x["recv"], x["args"] = args[0], args[1:]
             else:
                 x["args"] = args
+    # the parameters carry their pinned names (a parameter that was a tuple pattern was given a synthetic one)
+    for k_, nm_ in enumerate(want.get("params") or []):
+        if nm_ is None or k_ >= len(f["params"]):
+            continue
+        b_ = _plain_bind(f["params"][k_])
+        if b_ is not None and b_.get("name") != nm_ and str(b_.get("name", "")).startswith("_arg"):
+            for y in _walk(f["body"]):
+                if y.get("k") == "local" and y.get("hid") == b_["hid"]:
+                    y["name"] = nm_
+            b_["name"] = nm_
     f["adapted_signature"] = True
     return True
 
